@@ -535,7 +535,7 @@ func lookup(input OmegaInput) (output OmegaOutput) {
 	var a *types.ServiceAccount
 	if input.VM.Registers[7] == 0xffffffffffffffff || input.VM.Registers[7] == uint64(serviceID) {
 		a = &serviceAccount
-	} else if value, exists := delta[types.ServiceID(input.VM.Registers[7])]; exists {
+	} else if value, exists := delta[types.ServiceID(input.VM.Registers[7])]; exists && input.VM.Registers[7] <= 0xffffffff {
 		a = &value
 	}
 
@@ -630,7 +630,7 @@ func read(input OmegaInput) (output OmegaOutput) {
 	// assign a
 	if sStar == uint64(serviceID) {
 		a = delta[serviceID]
-	} else if value, exists := delta[types.ServiceID(sStar)]; exists {
+	} else if value, exists := delta[types.ServiceID(sStar)]; exists && sStar <= 0xffffffff {
 		a = value
 		serviceID = types.ServiceID(sStar)
 	} else {
@@ -814,7 +814,7 @@ func info(input OmegaInput) (output OmegaOutput) {
 		a = delta[serviceID]
 	} else {
 		value, exist := delta[types.ServiceID(input.VM.Registers[7])]
-		if exist {
+		if exist && input.VM.Registers[7] <= 0xffffffff {
 			a = value
 		} else {
 			// v = nil , l = 0 -> don't need to check writeable
